@@ -63,7 +63,36 @@ func cmdC14(r *RNG, n int, e *Emitter, args []string) {
 	lim := int64(1) << 29
 	for i := 0; i < n; i++ {
 		id := fmt.Sprintf("c14-%d", i)
-		switch r.Intn(8) {
+		switch r.Intn(9) {
+		case 8: // CrossProduct: random, nearly collinear far-apart points (products beyond 2^53, tiny exact value), wrap range
+			var p1, p2, p3 clip.Point64
+			switch r.Intn(3) {
+			case 0:
+				p1 = clip.Point64{X: genCoord(r, lim), Y: genCoord(r, lim)}
+				p2 = clip.Point64{X: genCoord(r, lim), Y: genCoord(r, lim)}
+				p3 = clip.Point64{X: genCoord(r, lim), Y: genCoord(r, lim)}
+			case 1:
+				// p2 = p1 + k*v, p3 = p1 + m*v + (d,d) with v = (dx, dx+e): the exact value is -k*e*d (tiny), both products exceed 2^54
+				p1 = clip.Point64{X: -lim + r.Range(0, 5), Y: -lim + r.Range(0, 5)}
+				dx := (int64(1) << 27) - r.Range(40, 4000)
+				dy := dx + r.Range(-30, 30)
+				k, m := r.Range(1, 3), r.Range(4, 7)
+				d := r.Range(-4, 4)
+				p2 = clip.Point64{X: p1.X + k*dx, Y: p1.Y + k*dy}
+				p3 = clip.Point64{X: p1.X + m*dx + d, Y: p1.Y + m*dy + d}
+				if r.Bool() {
+					p1, p3 = p3, p1
+				}
+			default:
+				p1 = clip.Point64{X: genInt64Any(r) / 4, Y: genInt64Any(r) / 4}
+				p2 = clip.Point64{X: genInt64Any(r) / 4, Y: genInt64Any(r) / 4}
+				p3 = clip.Point64{X: genInt64Any(r) / 4, Y: genInt64Any(r) / 4}
+			}
+			v := clip.CrossProduct(p1, p2, p3)
+			bi, _ := new(big.Float).SetFloat64(v).Int(nil)
+			e.Case(id+"x", fmt.Sprintf("cross %d %d %d %d %d %d", p1.X, p1.Y, p2.X, p2.Y, p3.X, p3.Y),
+				map[string]any{"pts": [][2]int64{{p1.X, p1.Y}, {p2.X, p2.Y}, {p3.X, p3.Y}}, "go": bi.String()})
+			e.Count("cross-product")
 		case 0: // triSign / multiply / productsAreEqual on arbitrary int64
 			a, b, c, d := genInt64Any(r), genInt64Any(r), genInt64Any(r), genInt64Any(r)
 			if r.Bool() { // make the products equal in magnitude
@@ -151,7 +180,24 @@ func cmdC14(r *RNG, n int, e *Emitter, args []string) {
 			} else {
 				poly = shiftPaths(clip.Paths64{genPoly(r, polyKinds[r.Intn(len(polyKinds))], 16)}, G-16, -(G - 16))[0]
 			}
+			bigTri := G > 10 && r.Intn(3) == 0
+			if bigTri { // a triangle spanning the whole domain: long edges, query points a few units off them
+				poly = clip.Path64{{X: -G + r.Range(0, 9), Y: -G + r.Range(0, 9)}, {X: G - r.Range(0, 9), Y: G - r.Range(0, 9)}, {X: -G + r.Range(0, 9), Y: G - r.Range(0, 9)}}
+				if r.Bool() {
+					poly = clip.ReversePath(poly)
+				}
+			}
 			var q clip.Point64
+			if bigTri {
+				k := r.Intn(3)
+				a, b := poly[k], poly[(k+1)%3]
+				t := r.Range(1, 1023)
+				q = clip.Point64{X: a.X + (b.X-a.X)/1024*t + r.Range(-12, 12), Y: a.Y + (b.Y-a.Y)/1024*t + r.Range(-12, 12)}
+				res := clip.PointInPolygon(q, poly)
+				e.Case(id+"i", fmt.Sprintf("pip %d %d%s", q.X, q.Y, encPathStr(poly)), map[string]any{"q": [2]int64{q.X, q.Y}, "poly": pathJSON(poly), "go": int(res)})
+				e.Count("pip-big-triangle")
+				continue
+			}
 			switch r.Intn(4) {
 			case 0:
 				q = poly[r.Intn(len(poly))]
